@@ -26,7 +26,7 @@ ASSUMPTIONS = ['a coroutine given to create_task that ends by cancellation, and 
                'an exception raised by a _schedule_rpc callback may arrive wrapped, as long as it chains to the original',
                'thread-mode cases that hit their watchdog are inconclusive, never violations']
 REQUIRED = ['adapter/convert_plain', 'foreign_loop_futures', 'adapter/comm_thread', 'injected_delays', 'adapter/unwrap', 'adapter/plum2kiwi', 'adapter/create_task', 'adapter/schedule_rpc', 'outcome/value', 'outcome/exception', 'outcome/cancel',
-            'depth/2', 'depth/3', 'inner_first', 'outer_first', 'thread_mode', 'action_cases', 'callbacks_counted', 'mirrors_of_one_future', 'exception_objects_as_values', 'pure_python_futures']
+            'depth/2', 'depth/3', 'inner_first', 'outer_first', 'thread_mode', 'action_cases', 'callbacks_counted', 'mirrors_of_one_future', 'exception_objects_as_values', 'pure_python_futures', 'unprintable_failures']
 EXHAUSTIVE = {'quick': False, 'thorough': False}
 BOUNDS = {'quick': 'depth<=3 exhaustive orders, depth 4 sampled (200), thread mode 120 cases', 'thorough': 'depth 4 all orders, thread mode 2000 cases'}
 # ('ISE:...': the failure is an asyncio.InvalidStateError -- e.g. the scheduled code asked a future for a result it does not have yet --
@@ -49,7 +49,14 @@ def _val(v):
     return AdapterError('handed back as a value') if v == '@EXC' else v
 
 
+class UnprintableAdapterError(AdapterError):
+    def __str__(self):
+        raise IndexError('this exception has no printable form')
+
+
 def _exc_for(tag):
+    if str(tag).startswith('UNP:'):
+        return UnprintableAdapterError(tag)
     if str(tag).startswith('KCE:'):
         return kiwipy.CancelledError(tag)
     return asyncio.InvalidStateError(tag) if str(tag).startswith('ISE:') else AdapterError(tag)
@@ -106,6 +113,12 @@ def gen_cases(tier, seed):
             for order in orders:
                 cases.append({'adapter': 'schedule_rpc', 'depth': depth, 'order': list(order), 'outcome': oc, 'thread': False})
                 cases.append({'adapter': 'schedule_rpc', 'depth': depth, 'order': list(order), 'outcome': oc, 'thread': True})
+    # the control call itself fails with an error that has no printable form: the reply still carries that failure
+    for thread in (False, True):
+        cases.append({'adapter': 'schedule_rpc', 'depth': 0, 'order': [], 'outcome': ['exc', 'UNP:callback-fails'], 'thread': thread})
+    for depth in (1, 2):
+        cases.append({'adapter': 'schedule_rpc', 'depth': depth, 'order': list(range(depth)), 'outcome': ['exc', 'UNP:awaited-fails'], 'thread': False})
+        cases.append({'adapter': 'convert_plain', 'depth': depth, 'order': list(range(depth)), 'outcome': ['exc', 'UNP:awaited-fails'], 'thread': False, 'foreign': False})
     # a subscriber converted by convert_to_comm() is called from a communicator thread while the loop is idle; an injected
     # delay (trace hook in the calling thread) lets the loop finish the scheduled coroutine before the mirror is set up
     for oc in OUTCOMES[:4]:
@@ -242,6 +255,7 @@ def run_case(case):
     obs = {'adapter': {adapter: 1}, 'outcome': {('cancel' if oc[0] == 'cancel' else ('exception' if oc[0] == 'exc' else 'value')): 1},
            'depth': {str(depth): 1}, 'inner_first': 0, 'outer_first': 0, 'thread_mode': int(thread), 'action_cases': 0, 'callbacks_counted': 0}
     obs['exception_objects_as_values'] = int(oc == ['value', '@EXC'])
+    obs['unprintable_failures'] = int(oc[0] == 'exc' and str(oc[1]).startswith('UNP:'))
     if depth >= 2:
         if order.index(depth - 1) < order.index(0):
             obs['inner_first'] = 1
